@@ -3,6 +3,13 @@
 #ifndef TETL_TYPE_TRAITS_MAKE_SIGNED_HPP
 #define TETL_TYPE_TRAITS_MAKE_SIGNED_HPP
 
+#include <etl/_type_traits/conditional.hpp>
+#include <etl/_type_traits/is_const.hpp>
+#include <etl/_type_traits/is_enum.hpp>
+#include <etl/_type_traits/is_same.hpp>
+#include <etl/_type_traits/is_volatile.hpp>
+#include <etl/_type_traits/remove_cv.hpp>
+
 namespace etl {
 
 namespace detail {
@@ -60,6 +67,39 @@ struct make_signed<unsigned long long> {
     using type = signed long long;
 };
 
+template <>
+struct make_signed<char> {
+    using type = signed char;
+};
+
+// wchar_t, char8_t, char16_t, char32_t and enumerations: the signed integer type of smallest rank with the same size
+template <typename T>
+struct make_signed_by_size {
+    // clang-format off
+    using type = conditional_t<sizeof(T) == sizeof(signed char), signed char,
+                 conditional_t<sizeof(T) == sizeof(short), short,
+                 conditional_t<sizeof(T) == sizeof(int), int,
+                 conditional_t<sizeof(T) == sizeof(long), long, long long>>>>;
+    // clang-format on
+};
+
+template <typename T>
+inline constexpr bool make_signed_uses_size
+    = is_enum_v<T> or is_same_v<T, wchar_t> or is_same_v<T, char8_t> or is_same_v<T, char16_t> or is_same_v<T, char32_t>;
+
+template <typename T>
+using make_signed_select = conditional_t<make_signed_uses_size<T>, make_signed_by_size<T>, make_signed<T>>;
+
+// the cv-qualifiers of From applied to To
+template <typename From, typename To>
+struct make_signed_copy_cv {
+private:
+    using c = conditional_t<is_const_v<From>, To const, To>;
+
+public:
+    using type = conditional_t<is_volatile_v<From>, c volatile, c>;
+};
+
 } // namespace detail
 
 /// If T is an integral (except bool) or enumeration type, provides the
@@ -76,7 +116,10 @@ struct make_signed<unsigned long long> {
 ///
 /// \ingroup type_traits
 template <typename Type>
-struct make_signed : etl::detail::make_signed<Type> { };
+struct make_signed {
+    using type =
+        typename detail::make_signed_copy_cv<Type, typename detail::make_signed_select<remove_cv_t<Type>>::type>::type;
+};
 
 template <typename T>
 using make_signed_t = typename make_signed<T>::type;
